@@ -1,6 +1,581 @@
-//! C12 (stub)
-use crate::case::{Case, Report};
-use crate::plan::Ctx;
-pub fn sections(_ctx: &Ctx) -> Vec<(&'static str, u64)> { vec![] }
-pub fn cases(_ctx: &Ctx, _s: &str, _i: u64) -> Vec<Case> { vec![] }
-pub fn judge(_case: &Case, _rep: &mut Report) {}
+//! C12 - inclusion and define placement: refinement against the reference model.
+
+use crate::case::{Case, Finding, Report, first_difference};
+use crate::exec::{Api, ExecSpec, OutcomeKind, TaskResult, run_exec};
+use crate::json::Json;
+use crate::model::{self, FailKind, ModelRun, Verdict};
+use crate::plan::{Ctx, STACK_MAIN, STACK_SMALL, Tier, key};
+use crate::prng::{Rng, fnv64};
+use crate::simfs::{Fault, FaultKind, FsSpec, Sel};
+use crate::w3::{self, Form, Graph, Mode};
+
+const BATCH: u64 = 50;
+
+pub fn sections(ctx: &Ctx) -> Vec<(&'static str, u64)> {
+    let (plain, hostile, compile, defplace) = match ctx.tier {
+        Tier::Quick => (100, 200, 60, 40),
+        Tier::Thorough => (8_000, 24_000, 4_000, 4_000),
+    };
+    vec![
+        ("plain", plain * ctx.scale),
+        ("hostile", hostile * ctx.scale),
+        ("compile", compile * ctx.scale),
+        ("defplace", defplace * ctx.scale),
+    ]
+}
+
+/// Pick a fault plan for a graph from what its fault-free model run touched
+pub fn fault_plan(rng: &mut Rng, g: &Graph, base: &ModelRun, max: u64) -> Vec<Fault> {
+    let mut out = Vec::new();
+    let n = rng.range(1, max);
+    for _ in 0..n {
+        let strings: Vec<&str> = base.walk.iter().map(|s| s.string.as_str()).collect();
+        let files: Vec<&String> = base.pasted.iter().collect();
+        let pick_file = |rng: &mut Rng| -> Option<String> {
+            if files.is_empty() {
+                None
+            } else {
+                Some((*rng.pick(&files)).clone())
+            }
+        };
+        let f = match rng.below(9) {
+            0 | 1 => {
+                if strings.is_empty() {
+                    continue;
+                }
+                let kind = if rng.chance(1, 2) {
+                    FaultKind::NotFound
+                } else {
+                    FaultKind::NotText
+                };
+                Fault::new(kind, Sel::IncludeString(rng.pick(&strings).to_string()))
+            }
+            2 => {
+                let Some(f) = pick_file(rng) else { continue };
+                Fault::new(FaultKind::NotFound, Sel::File(f))
+            }
+            3 => {
+                // lost tail: cut at a line boundary
+                let Some(f) = pick_file(rng) else { continue };
+                let text = &g.fs.files[&f];
+                let bounds: Vec<usize> = text
+                    .match_indices('\n')
+                    .map(|(i, _)| i + 1)
+                    .chain(std::iter::once(0))
+                    .collect();
+                let o = *rng.pick(&bounds);
+                Fault::new(FaultKind::ShortRead, Sel::File(f)).ab(o as u64, 0)
+            }
+            4 | 5 => {
+                let Some(f) = pick_file(rng) else { continue };
+                let lines = g.fs.files[&f].split_inclusive('\n').count() as u64;
+                if lines == 0 {
+                    continue;
+                }
+                let a = rng.below(lines);
+                let b = (a + rng.range(1, 3)).min(lines);
+                let kind = if rng.chance(1, 2) {
+                    FaultKind::LoseLines
+                } else {
+                    FaultKind::DupLines
+                };
+                Fault::new(kind, Sel::File(f)).ab(a, b)
+            }
+            6 => {
+                let Some(f) = pick_file(rng) else { continue };
+                Fault::new(FaultKind::Empty, Sel::File(f))
+            }
+            7 => Fault::new(FaultKind::Crlf, Sel::All),
+            _ => {
+                let Some(f) = pick_file(rng) else { continue };
+                let text = &g.fs.files[&f];
+                let starts: Vec<usize> = std::iter::once(0)
+                    .chain(text.match_indices('\n').map(|(i, _)| i + 1))
+                    .filter(|o| *o < text.len())
+                    .collect();
+                if starts.is_empty() {
+                    continue;
+                }
+                let o = *rng.pick(&starts);
+                Fault::new(FaultKind::Nul, Sel::File(f)).ab(o as u64, 0)
+            }
+        };
+        out.push(f);
+    }
+    out
+}
+
+fn refine_case(label: &str, g: &Graph, faults: Vec<Fault>, api: Api, rng: &mut Rng) -> Case {
+    let mut task = match api {
+        Api::Preprocess => w3::preprocess_task(g),
+        Api::Compile => w3::compile_task(g, &mut rng.sub("target")),
+    };
+    task.faults = faults;
+    let stack = if rng.chance(1, 2) { STACK_SMALL } else { STACK_MAIN };
+    Case {
+        check: "C12".into(),
+        kind: "refine".into(),
+        label: label.to_string(),
+        fss: vec![g.fs.clone()],
+        execs: vec![ExecSpec::single(key(rng), stack, task)],
+        params: Json::obj().with("mode", Json::s(&format!("{:?}", g.mode))),
+    }
+}
+
+pub fn cases(ctx: &Ctx, section: &str, unit: u64) -> Vec<Case> {
+    let mut out = Vec::new();
+    for b in 0..BATCH {
+        let i = unit * BATCH + b;
+        let mut rng = ctx.rng().sub_n(section, i);
+        match section {
+            "plain" => {
+                let g = w3::generate(&mut rng.sub("graph"), Mode::Plain, Form::Pre);
+                out.push(refine_case(
+                    &format!("W3:plain#{i}"),
+                    &g,
+                    vec![],
+                    Api::Preprocess,
+                    &mut rng,
+                ));
+            }
+            "hostile" => {
+                let g = w3::generate(&mut rng.sub("graph"), Mode::Hostile, Form::Pre);
+                let faults = if rng.chance(1, 2) {
+                    let base = model::run(&g.fs, &[], &g.entry, &g.defines);
+                    fault_plan(&mut rng.sub("faults"), &g, &base, 3)
+                } else {
+                    vec![]
+                };
+                out.push(refine_case(
+                    &format!("W3:hostile#{i}"),
+                    &g,
+                    faults,
+                    Api::Preprocess,
+                    &mut rng,
+                ));
+            }
+            "compile" => {
+                let mode = if rng.chance(1, 2) { Mode::Plain } else { Mode::Hostile };
+                let g = w3::generate(&mut rng.sub("graph"), mode, Form::Compile);
+                let faults = if rng.chance(1, 3) {
+                    let base = model::run(&g.fs, &[], &g.entry, &g.defines);
+                    fault_plan(&mut rng.sub("faults"), &g, &base, 2)
+                } else {
+                    vec![]
+                };
+                out.push(refine_case(
+                    &format!("W3:compile#{i}"),
+                    &g,
+                    faults,
+                    Api::Compile,
+                    &mut rng,
+                ));
+            }
+            "defplace" => out.push(defplace_case(&mut rng, i)),
+            _ => {}
+        }
+    }
+    out
+}
+
+/// API-level defines must behave like #define lines placed before the first line
+fn defplace_case(rng: &mut Rng, i: u64) -> Case {
+    let form = if rng.chance(1, 4) { Form::Compile } else { Form::Pre };
+    let mode = if rng.chance(1, 2) { Mode::Plain } else { Mode::Hostile };
+    let mut g = w3::generate(&mut rng.sub("graph"), mode, form);
+    // make sure there is something to place
+    let mut d = rng.sub("defines");
+    while g.defines.len() < 2 {
+        let name = ["A", "B", "C", "D", "E", "F"][d.below(6) as usize];
+        if g.defines.iter().any(|(n, _)| n == name) {
+            continue;
+        }
+        let v = match d.below(5) {
+            0 => String::new(),
+            1 => "p".to_string(),
+            2 => "u".to_string(),
+            3 => d.range(0, 9).to_string(),
+            _ => ["A", "B", "C"][d.below(3) as usize].to_string(),
+        };
+        g.defines.push((name.to_string(), v));
+    }
+    // a use next to ## (where the unlocated-token panic lived): CAT(X, 1) with X defined on the API
+    if form == Form::Pre && d.chance(1, 2) {
+        let (name, value) = g.defines[0].clone();
+        let entry = g.fs.files.get_mut(&g.entry).unwrap();
+        if !entry.contains("#define CAT(a,b) a##b") {
+            entry.insert_str(0, "#define CAT(a,b) a##b\n");
+        }
+        if value.chars().all(|c| c.is_ascii_alphabetic()) && !value.is_empty() {
+            entry.push_str(&format!("\nm_cat_1 CAT({name},1) ;\n"));
+        }
+    }
+    d.shuffle(&mut g.defines);
+
+    let mut t = match form {
+        Form::Pre => w3::preprocess_task(&g),
+        Form::Compile => {
+            let mut t = w3::compile_task(&g, &mut rng.sub("target"));
+            t.target = crate::exec::Target::Dx;
+            t
+        }
+    };
+    t.defines = g.defines.clone();
+    Case {
+        check: "C12".into(),
+        kind: "defplace".into(),
+        label: format!("W3:defplace#{i}"),
+        fss: vec![g.fs.clone()],
+        execs: vec![ExecSpec::single(key(rng), STACK_MAIN, t)],
+        params: Json::obj(),
+    }
+}
+
+fn finding(class: &str, fingerprint: &str, detail: String) -> Finding {
+    Finding {
+        property: "C12".into(),
+        class: class.into(),
+        fingerprint: fingerprint.into(),
+        detail,
+    }
+}
+
+/// History invariants over the handler's event log (DESIGN 4 C12, check 2)
+fn history(case: &Case, r: &TaskResult, m: &ModelRun, rep: &mut Report) {
+    // (c) parent_name equals the real_name the handler returned for the including file
+    let mut real_names: Vec<&str> = vec![""];
+    for (i, e) in r.events.iter().enumerate() {
+        if i == 0 {
+            if !e.parent_name.is_empty() {
+                rep.findings.push(finding(
+                    "history",
+                    "parent-name",
+                    format!("{}: entry request carries parent {:?}", case.label, e.parent_name),
+                ));
+            }
+        } else if !real_names.contains(&e.parent_name.as_str()) || e.parent_name.is_empty() {
+            rep.findings.push(finding(
+                "history",
+                "parent-name",
+                format!(
+                    "{}: request #{i} for {:?} names parent {:?}, which is not the real_name of any file handed out before",
+                    case.label, e.file_name, e.parent_name
+                ),
+            ));
+        }
+        if e.response == "data" {
+            real_names.push(e.real_name.as_str());
+        }
+    }
+    // (d) nothing follows an error response, and an error response makes the call fail
+    if let Some(pos) = r.events.iter().position(|e| e.response != "data") {
+        if pos + 1 != r.events.len() {
+            rep.findings.push(finding(
+                "history",
+                "request-after-error",
+                format!("{}: {} requests follow an error response", case.label, r.events.len() - pos - 1),
+            ));
+        }
+        if r.kind == OutcomeKind::Ok {
+            rep.findings.push(finding(
+                "history",
+                "error-swallowed",
+                format!(
+                    "{}: handler answered {:?} with an error but the call returned Ok",
+                    case.label, r.events[pos].file_name
+                ),
+            ));
+        }
+    }
+    if matches!(m.verdict, Verdict::Unmodelled(_)) {
+        return;
+    }
+    // (a) no invention: requests (after the entry) are a subsequence of the model's walk
+    let mut wi = 0usize;
+    for (i, e) in r.events.iter().enumerate().skip(1) {
+        let mut found = false;
+        while wi < m.walk.len() {
+            let w = &m.walk[wi];
+            wi += 1;
+            if w.string == e.file_name && w.parent == e.parent_name {
+                found = true;
+                break;
+            }
+        }
+        if !found {
+            rep.findings.push(finding(
+                "history",
+                "invented-request",
+                format!(
+                    "{}: request #{i} ({:?} from {:?}) is not justified by an active #include the model reaches at that point",
+                    case.label, e.file_name, e.parent_name
+                ),
+            ));
+            return;
+        }
+    }
+    // (b) no silent skip: the first active include of each distinct include string is requested.
+    // Only judged when both sides agree the run got that far (same verdict class).
+    let impl_failed = r.kind != OutcomeKind::Ok;
+    let model_failed = !matches!(m.verdict, Verdict::Ok(_));
+    if impl_failed == model_failed {
+        let mut seen: Vec<&str> = Vec::new();
+        for w in &m.walk {
+            if seen.contains(&w.string.as_str()) {
+                continue;
+            }
+            seen.push(&w.string);
+            if !r.events.iter().skip(1).any(|e| e.file_name == w.string) {
+                rep.findings.push(finding(
+                    "history",
+                    "skipped-first-request",
+                    format!(
+                        "{}: the active #include of {:?} in {:?} was never requested from the handler",
+                        case.label, w.string, w.parent
+                    ),
+                ));
+                return;
+            }
+        }
+    }
+}
+
+pub fn judge(case: &Case, rep: &mut Report) {
+    match case.kind.as_str() {
+        "refine" => refine(case, rep),
+        "defplace" => defplace(case, rep),
+        _ => {}
+    }
+}
+
+fn scenario_digest(case: &Case) -> u64 {
+    fnv64(
+        Json::Arr(vec![
+            Json::Arr(case.fss.iter().map(|f| f.to_json()).collect()),
+            case.execs[0].threads[0].tasks[0].to_json(),
+        ])
+        .dump()
+        .as_bytes(),
+    )
+}
+
+fn refine(case: &Case, rep: &mut Report) {
+    let ex = &case.execs[0];
+    let task = &ex.threads[0].tasks[0];
+    let fs: &FsSpec = &case.fss[task.fs];
+    let res = run_exec(ex, &case.fss);
+    rep.history_digests.insert(res.history_digest);
+    let r = &res.results[0][0];
+    rep.absorb_task(r);
+    let digest = scenario_digest(case);
+    rep.scenario_digests.insert(digest);
+
+    let m = model::run(fs, &task.faults, &task.entry, &task.defines);
+    let fired = r.events.iter().any(|e| !e.fired.is_empty());
+    if !m.walk.is_empty()
+        && (m.once_skips > 0 || m.cross_file_redefs > 0 || fired || m.pasted.len() >= 3)
+    {
+        rep.nontrivial.insert(digest);
+    }
+    rep.count("once_skips", m.once_skips as u64);
+    rep.count("cross_file_redefinitions", m.cross_file_redefs as u64);
+    rep.count("includes_followed", m.walk.len() as u64);
+    if m.max_depth >= 3 {
+        rep.count("graphs_with_include_depth_3_or_more", 1);
+    }
+    let config = case.params.gs("mode");
+    rep.count(&format!("judged_in_{}_configuration", config.to_lowercase()), 1);
+
+    if r.kind == OutcomeKind::Panic {
+        rep.findings.push(finding(
+            "panic",
+            &r.panic_site,
+            format!("{}: {}", case.label, r.text),
+        ));
+        return;
+    }
+    history(case, r, &m, rep);
+
+    match &m.verdict {
+        Verdict::Unmodelled(why) => {
+            rep.count(&format!("unmodelled: {why}"), 1);
+        }
+        Verdict::Fail(f) => {
+            rep.count(&format!("model_fail_{}", kind_tag(&f.kind)), 1);
+            if r.kind == OutcomeKind::Ok {
+                rep.findings.push(finding(
+                    "refinement",
+                    "verdict:model-fail/impl-ok",
+                    format!(
+                        "{}: textual inclusion fails ({:?} at {:?}) but rssl returned Ok",
+                        case.label, f.kind, f.at
+                    ),
+                ));
+            } else if let FailKind::Load(name) = &f.kind {
+                // E1/E2 on string n => Err whose text contains n
+                if !r.text.contains(name.as_str()) {
+                    // only a finding if the model's failure is the first thing that goes wrong,
+                    // which it is by construction of the walk
+                    rep.findings.push(finding(
+                        "refinement",
+                        "load-error-does-not-name-file",
+                        format!(
+                            "{}: loading {:?} fails but the diagnostic does not mention it: {:?}",
+                            case.label,
+                            name,
+                            r.text.lines().nth(1).unwrap_or("")
+                        ),
+                    ));
+                }
+            }
+        }
+        Verdict::Ok(toks) => {
+            rep.count("model_ok", 1);
+            match task.api {
+                Api::Preprocess => {
+                    if r.kind != OutcomeKind::Ok {
+                        rep.findings.push(finding(
+                            "refinement",
+                            "verdict:model-ok/impl-err",
+                            format!(
+                                "{}: textual inclusion succeeds but rssl failed: {:?}",
+                                case.label,
+                                r.text.lines().nth(1).unwrap_or("")
+                            ),
+                        ));
+                        return;
+                    }
+                    let mut expect = String::from("Ok tokens\n");
+                    for t in toks {
+                        expect.push_str(&t.render());
+                        expect.push('\n');
+                    }
+                    if expect != r.text {
+                        rep.findings.push(finding(
+                            "refinement",
+                            "tokens-differ",
+                            format!(
+                                "{}: token stream differs from textual inclusion at {} (model vs rssl)",
+                                case.label,
+                                first_difference(&expect, &r.text)
+                            ),
+                        ));
+                    }
+                }
+                Api::Compile => match model::compile_form_verdict(toks) {
+                    None => rep.count("compile_form_shape_unknown", 1),
+                    Some(Ok(())) => {
+                        rep.count("compile_form_ok", 1);
+                        if r.kind != OutcomeKind::Ok {
+                            rep.findings.push(finding(
+                                "refinement",
+                                "compile-verdict:model-ok/impl-err",
+                                format!(
+                                    "{}: the pasted program is valid but compile() failed: {:?}",
+                                    case.label,
+                                    r.text.lines().nth(1).unwrap_or("")
+                                ),
+                            ));
+                        }
+                    }
+                    Some(Err(_)) => {
+                        rep.count("compile_form_err", 1);
+                        if r.kind == OutcomeKind::Ok {
+                            rep.findings.push(finding(
+                                "refinement",
+                                "compile-verdict:model-err/impl-ok",
+                                format!(
+                                    "{}: the pasted program redefines or uses an undeclared name but compile() returned Ok",
+                                    case.label
+                                ),
+                            ));
+                        }
+                    }
+                },
+            }
+        }
+    }
+}
+
+fn kind_tag(k: &FailKind) -> &'static str {
+    match k {
+        FailKind::Load(_) => "load",
+        FailKind::Lex => "lex",
+        FailKind::Condition => "condition",
+        FailKind::Chain => "chain",
+        FailKind::Depth => "depth",
+    }
+}
+
+fn defplace(case: &Case, rep: &mut Report) {
+    // Variant B is derived here, never stored: the same tree with the defines written as
+    // #define lines in front of the entry file, and no API-level defines
+    let ex_a = &case.execs[0];
+    let task_a = &ex_a.threads[0].tasks[0];
+    let mut fss = case.fss.clone();
+    let mut fs_b = fss[task_a.fs].clone();
+    let mut prefix = String::new();
+    for (n, v) in &task_a.defines {
+        prefix.push_str(format!("#define {n} {v}").trim_end());
+        prefix.push('\n');
+    }
+    let Some(canonical) = fs_b.resolve(&task_a.entry, "") else {
+        rep.count("defplace_entry_missing", 1);
+        return;
+    };
+    // If the entry file is included again (a cycle through the entry), lines written in it are
+    // executed again while API-level defines are not: the two placements legitimately differ
+    let m = model::run(&fss[task_a.fs], &task_a.faults, &task_a.entry, &task_a.defines);
+    if m.walk.iter().any(|w| w.resolved.as_deref() == Some(canonical.as_str())) {
+        rep.count("defplace_skipped_entry_included_again", 1);
+        return;
+    }
+    let e = fs_b.files.get_mut(&canonical).unwrap();
+    *e = format!("{prefix}{e}");
+    fss.push(fs_b);
+    let mut ex_b = ex_a.clone();
+    ex_b.threads[0].tasks[0].fs = fss.len() - 1;
+    ex_b.threads[0].tasks[0].defines.clear();
+    ex_b.threads[0].key = (ex_a.threads[0].key.1, ex_a.threads[0].key.0);
+
+    let mut texts: Vec<TaskResult> = Vec::new();
+    for ex in [ex_a, &ex_b] {
+        let res = run_exec(ex, &fss);
+        rep.history_digests.insert(res.history_digest);
+        let r = res.results.into_iter().next().unwrap().into_iter().next().unwrap();
+        rep.absorb_task(&r);
+        texts.push(r);
+    }
+    let digest = scenario_digest(case);
+    rep.scenario_digests.insert(digest);
+    rep.nontrivial.insert(digest);
+    rep.count("define_placements_compared", 1);
+    for r in &texts {
+        if r.kind == OutcomeKind::Panic {
+            rep.findings.push(finding(
+                "panic",
+                &r.panic_site,
+                format!("{}: {}", case.label, r.text),
+            ));
+            return;
+        }
+    }
+    let (a, b) = (&texts[0], &texts[1]);
+    let same = if a.kind == OutcomeKind::Ok && b.kind == OutcomeKind::Ok {
+        a.text == b.text
+    } else {
+        // diagnostics of the two placements carry different positions: compare the verdict
+        a.kind == b.kind
+    };
+    if !same {
+        rep.findings.push(finding(
+            "define-placement",
+            &format!("{}/{}", a.kind_name(), b.kind_name()),
+            format!(
+                "{}: defines passed through the API and the same defines as #define lines before the first line differ at {}",
+                case.label,
+                first_difference(&a.text, &b.text)
+            ),
+        ));
+    }
+}
